@@ -477,9 +477,19 @@ def div_bvd_bvf_items(ctx):
     return it + verify(["bvd.div_rem_bvf"])
 GROUPS["bvd_div_bvf"] = dict(name="bvd_div_bvf", features="#![feature(allocator_api)]", prelude=div_bvd_bvf_prelude, items=div_bvd_bvf_items)
 GROUPS["bvf_bytes"] = G("bvf_bytes", BVF_PRELUDE + ["bytes.rs"], BVF_BASE + [("stub", "cast.to", {"A": "{I}", "B": "u8"})] + stub(BVF_CORE) + verify(["bvf.to_vec"]))
+GROUPS["bvf_from_bytes"] = dict(name="bvf_from_bytes", prelude=lambda ctx: BVF_PRELUDE + ["bytes.rs", "bytes_from_u8.rs" if ctx["I"] == "u8" else "bytes_from.rs"],
+    items=lambda ctx: BVF_BASE + [("stub", "cast.from", {"A": "{I}", "B": "u8"}), ("stub", "cast.to", {"A": "{I}", "B": "u8"})] + stub(BVF_CORE)
+        + verify(["bvf.from_bytes_b" if ctx["I"] == "u8" else "bvf.from_bytes_w"]))
+GROUPS["bvf_io"] = dict(name="bvf_io", prelude=lambda ctx: BVF_PRELUDE + ["bytes.rs", "io.rs"],
+    items=lambda ctx: BVF_BASE + stub(BVF_CORE) + stub(["bvf.to_vec", "bvf.from_bytes_b" if ctx["I"] == "u8" else "bvf.from_bytes_w"]) + verify(["bvf.read", "bvf.write"]))
+GROUPS["bvd_io"] = G("bvd_io", BVD_PRELUDE + ["bytes.rs", "io.rs", "io_bvd.rs"], BVD_BASE + stub(BVD_CORE) + stub(["bvd.to_vec", "bvd.from_bytes"]) + verify(["bvd.read", "bvd.write"]))
+GROUPS["bvd_io"]["features"] = "#![feature(allocator_api)]"
+GROUPS["bvd_from_bytes"] = G("bvd_from_bytes", BVD_PRELUDE + ["bytes.rs", "bytes_from.rs"], BVD_BASE + stub(BVD_CORE) + verify(["bvd.from_bytes"]))
+GROUPS["bvd_from_bytes"]["features"] = "#![feature(allocator_api)]"
 GROUPS["bvd_bytes"] = G("bvd_bytes", BVD_PRELUDE + ["bytes.rs"], BVD_BASE + stub(BVD_CORE) + verify(["bvd.to_vec"]))
 GROUPS["bvd_bytes"]["features"] = "#![feature(allocator_api)]"
-GROUPS["bv_bytes"] = G("bv_bytes", BV_PRELUDE + ["bytes.rs", "bv_words.rs"], BV_BASE + stub(["bvf.to_vec", "bvd.to_vec"]) + verify(["bv.to_vec"]))
+GROUPS["bv_bytes"] = G("bv_bytes", BV_PRELUDE + ["bytes.rs", "bv_words.rs", "io.rs"], BV_BASE + stub(["bvf.to_vec", "bvd.to_vec", "bvf.from_bytes_w", "bvd.from_bytes", "bvf.read", "bvf.write", "bvd.read", "bvd.write"])
+    + verify(["bv.to_vec", "bv.from_bytes", "bv.read", "bv.write"]))
 GROUPS["bv_bytes"]["features"] = "#![feature(allocator_api)]"
 def bv_conv_prelude(ctx):
     return bv_ops_prelude(ctx)
@@ -826,7 +836,8 @@ def int_conv_jobs(ws):
     return out + jobs("bvf_defaults", ws) + [("bvd_defaults", U64), ("bv_defaults", U64)]
 PROPS["C11"] = {"quick": int_conv_jobs(WQ), "thorough": int_conv_jobs(W4)}
 def bytes_jobs(ws):
-    return [("bvf_bytes", {"I": i}) for i in ws] + [("bvd_bytes", U64), ("bv_bytes", U64)]
+    return ([("bvf_bytes", {"I": i}) for i in ws] + [("bvd_bytes", U64), ("bv_bytes", U64)]
+            + [("bvf_from_bytes", {"I": i}) for i in ws] + [("bvf_io", {"I": i}) for i in ws] + [("bvd_from_bytes", U64), ("bvd_io", U64)])
 PROPS["C13"] = {"quick": bytes_jobs(WQ), "thorough": bytes_jobs(W4)}
 BVD_ARITH_JOBS = [("bvd_arith", dict(U64, **ARITH_D[o])) for o in ("add", "sub")]
 PROPS["C01"]["quick"] += BVD_ARITH_JOBS
@@ -953,8 +964,20 @@ MANIFEST_TEXT["C12"] = dict(
           "storage beyond len zero (wf), and for Bvd exactly ceil(len/64) words`, on top of the verified chunk readers IArray::get_int/int_len of Bvf and Bvd (every word-size pair)." + DYN_NOTE),
     note=("Also verified: From<&Bv>/From<Bvd>/From<&Bvd>/From<&Bvf<J,N>> for Bv (inline exactly when the length / the source capacity fits 128 bits) and From<&Bv> for Bvd. TryFrom<&Bv> for Bvf<I,N> is verified too. Not yet under contract (second engine only): the by-value forms (forwarders), From<&[I]>, new/into_inner round trip (new/into_inner themselves are verified, see C07). "
           "The slice-level int_len is verified for every pair of word types, and get_int / set_int are verified where the slice word is narrower than the chunk (word-combining / word-splitting loop of utils.rs; the dead unsafe arm is removed by R25 exactly as monomorphisation removes it). Where the slice word is at least as wide as the chunk the code is `unsafe { align_to }`, outside Verus: its contract stays trusted (T2) and is exercised only by the native fuzz harnesses. " + TRUST_NOTE))
-dyn_only("C13", "to_vec/write/from_bytes/read for both endiannesses incl. surplus bits, short input, capacity errors and round trips.", "from_bytes (enumerate/rev iterator adapters) and read/write (io traits, `?`) are outside what Verus takes; D3 was found and fixed. ONE direction IS verified on every run of this check: to_vec of Bvf, Bvd and Bv "
-         "(exactly ceil(len/8) bytes; Little: bit t of byte j is bit 8j+t of the vector, surplus bits of the top byte zero; Big: the same bytes reversed) - units bvf.to_vec, bvd.to_vec, bv.to_vec; a definite failure there is reported as a violation of this property.")
+MANIFEST_TEXT["C13"] = dict(
+    text=("Proof: the real bodies of to_vec, from_bytes, read and write of Bvf<I,N> (I = u8..u64, symbolic N), Bvd and Bv, extracted from /repo on every run, are verified by Verus. "
+          "to_vec: exactly ceil(len/8) bytes; Little: bit t of byte j is bit 8j+t of the vector, surplus bits of the top byte zero; Big: the same bytes reversed (`le_image`). "
+          "from_bytes: Err(NotEnoughCapacity) exactly when 8*|bytes| exceeds a fixed capacity, otherwise Ok with length 8*|bytes|, well formed, and the storage is the little-endian image of the bytes (Big: of the reversed bytes); "
+          "the four shift-and-or packing loops of Bvf, the two of Bvd (with its offset / last-word index arithmetic) are proved against one packing theory (spec/prelude/bytes_from.rs); Bv: inline exactly when 8*|bytes| <= 128. "
+          "read (for an ARBITRARY reader satisfying the documented read_exact contract, mirror trait VRead): Ok exactly when the length fits a fixed capacity and the stream holds ceil(len/8) more bytes; then exactly those bytes are consumed, "
+          "the result has exactly len bits, is well formed (so the surplus high bits of the most significant byte are DISCARDED: the D3 defect is a failing obligation of this unit), and bit i is bit i%8 of byte i/8 in little-endian order; "
+          "an insufficient fixed capacity gives Err(InvalidInput) with nothing consumed, and no panic is reachable. write (arbitrary writer, mirror trait VWrite): on Ok the sink grew by exactly the to_vec image. "
+          "The two round trips of the statement are proved as lemmas over these contracts (lemma_read_write_round_trip, lemma_from_bytes_to_vec in spec/prelude/io.rs)." + DYN_NOTE),
+    note=("Rewrites specific to these units (logged per run): R26 `for (i, b) in E.iter().enumerate()[.rev()]` / `.rev().enumerate()` -> index loops over `0..E.len()` (std's meaning of the adapters on a slice iterator, T3); "
+          "R25 keeps the live arm of `if size_of::<I>() == 1`; R27 `bytes.as_ref()` -> `bytes` at the instantiation B = &[u8] (the generic B: AsRef<[u8]> is verified for that one instantiation, which is also the one read() uses); "
+          "R28 the bounds `R: std::io::Read` / `W: std::io::Write` -> mirror traits VRead / VWrite whose contracts are ASSUMED (T1-io: read_exact fills the buffer with the next bytes and consumes exactly those, or fails at end of input, no other I/O failure; "
+          "write_all appends exactly the slice or fails), `reader.read_exact(&mut buf[..])` -> `reader.read_exact_vec(&mut buf)`, `std::io::Error::new(kind, e)` -> a stub that records the kind; R29 `&buf[..]` -> `buf.as_slice()`. "
+          "Not under contract (second engine only): other instantiations of B (Vec<u8>, arrays), u128/usize storage words. A-size: |bytes| <= usize::MAX/8 (Bvf), 8*|bytes| + 64 <= usize::MAX/2 (Bvd, Bv). " + TRUST_NOTE))
 dyn_only("C14", "Display/Binary/Octal/LowerHex/UpperHex under 21 format specifications against Rust's formatting of the u128 value.",
          "CONTRACT-BASED VERIFICATION DOES NOT REACH THIS PROPERTY with the installed tools: the digit strings are built with String/Vec<char>/iterator-adapter chains (`s.iter().rev().collect::<String>()`), "
          "Display runs div_rem in a loop with char::from_digit, and the observable result goes through core::fmt::Formatter::pad_integral, for which vstd has neither a model nor a hook; a contract would have to ASSUME the "
